@@ -1,6 +1,730 @@
-//! C04 — not built yet.
-use crate::ev::Tier;
-pub fn main(_tier: Tier, _replay: Option<serde_json::Value>) -> i32 {
-    eprintln!("C04: check not built yet");
-    2
+//! C04 — a proof binds its statement: public inputs (values, order, length),
+//! circuit description, label and protocol version.
+//!
+//! Oracle: `verify_with_version` accepts iff the verifier's serialized
+//! description equals the one the proof was made for, the public-input vector
+//! is identical and the version pair is one the reference verifier M2 accepts;
+//! every other combination is an `Err` — never `Ok`, never a panic.
+
+use std::collections::BTreeMap;
+use std::panic::{catch_unwind, AssertUnwindSafe};
+use std::sync::Arc;
+
+use dusk_jubjub::JubJubExtended;
+use dusk_plonk::prelude::*;
+use dusk_plonk::verif::Snapshot;
+use serde_json::{json, Value};
+
+use crate::c03::{self, from_hex_bytes, m2_side, pv, real_side, to_hex, Circ, Side, VERSIONS};
+use crate::ev::{Run, Tier};
+use crate::fe::*;
+use crate::m2::{self, VerifierData, Version};
+use crate::prog::Prog;
+
+pub const LABEL: &[u8; 8] = b"c04label";
+pub const SELECTOR_NAMES: [&str; 11] = ["q_m", "q_l", "q_r", "q_o", "q_f", "q_c", "q_arith", "q_range", "q_logic", "q_fixed", "q_var"];
+pub const WIRE_NAMES: [&str; 4] = ["a", "b", "c", "d"];
+
+// ---------------------------------------------------------------------------
+// Circuits as data: the user rows of a composer program
+// ---------------------------------------------------------------------------
+
+#[derive(Clone, Debug)]
+pub struct SRow {
+    pub q: [Fe; 11],
+    /// absolute witness indices
+    pub w: [usize; 4],
+    pub pi: Option<Fe>,
+}
+
+#[derive(Clone, Debug)]
+pub struct Spec {
+    /// witnesses / rows every initialized composer starts with
+    pub base_w: usize,
+    pub base_rows: usize,
+    /// values of the witnesses with index >= base_w
+    pub wit: Vec<Fe>,
+    /// all witness values (including the initial ones)
+    pub all_wit: Vec<Fe>,
+    pub rows: Vec<SRow>,
+}
+
+impl Spec {
+    pub fn from_snapshot(s: &Snapshot) -> Spec {
+        let base = Composer::initialized().verif_snapshot();
+        let (base_w, base_rows) = (base.witnesses.len(), base.gates.len());
+        let pis: BTreeMap<usize, Fe> = s.public_inputs.iter().cloned().collect();
+        let rows = s.gates.iter().enumerate().skip(base_rows).map(|(i, g)| SRow { q: g.q, w: g.w, pi: pis.get(&i).copied() }).collect();
+        Spec { base_w, base_rows, wit: s.witnesses[base_w..].to_vec(), all_wit: s.witnesses.clone(), rows }
+    }
+    pub fn prog(&self) -> Prog {
+        let sp = self.clone();
+        Prog::new(move |c| {
+            for v in &sp.wit {
+                c.append_witness(*v);
+            }
+            for r in &sp.rows {
+                let w = [c.verif_witness(r.w[0]), c.verif_witness(r.w[1]), c.verif_witness(r.w[2]), c.verif_witness(r.w[3])];
+                c.verif_raw_gate(r.q, r.pi, w);
+            }
+            Ok(())
+        })
+    }
+    /// public-input vector in row order
+    pub fn pis(&self) -> Vec<Fe> {
+        self.rows.iter().filter_map(|r| r.pi).collect()
+    }
+}
+
+/// Apply a near-miss descriptor (JSON) to a (spec, label); `None` when the
+/// descriptor does not apply.
+pub fn apply_variant(spec: &Spec, label: &[u8], v: &Value) -> Option<(Spec, Vec<u8>)> {
+    let mut s = spec.clone();
+    let mut l = label.to_vec();
+    let row = v["row"].as_u64().unwrap_or(0) as usize;
+    let k = v["k"].as_u64().unwrap_or(0) as usize;
+    match v["kind"].as_str()? {
+        "none" => {}
+        "selector" => s.rows.get_mut(row)?.q[k] += one(),
+        "selector-negated" => {
+            let q = &mut s.rows.get_mut(row)?.q[k];
+            if *q == zero() {
+                return None;
+            }
+            *q = -*q;
+        }
+        "wire" | "wire-samevalue" => {
+            let to = v["to"].as_u64()? as usize;
+            if to >= s.all_wit.len() || s.rows.get(row)?.w[k] == to {
+                return None;
+            }
+            s.rows[row].w[k] = to;
+        }
+        "pi-added" => {
+            let r = s.rows.get_mut(row)?;
+            if r.pi.is_some() {
+                return None;
+            }
+            r.pi = Some(zero());
+        }
+        "pi-removed" => {
+            let r = s.rows.get_mut(row)?;
+            r.pi?;
+            r.pi = None;
+        }
+        "pi-moved" => {
+            let to = v["to"].as_u64()? as usize;
+            if to >= s.rows.len() || s.rows[to].pi.is_some() {
+                return None;
+            }
+            let val = s.rows.get(row)?.pi?;
+            s.rows[row].pi = None;
+            s.rows[to].pi = Some(val);
+        }
+        "row-added-zero" => s.rows.push(SRow { q: [zero(); 11], w: [0; 4], pi: None }),
+        "row-added-dup" => {
+            let mut last = s.rows.last()?.clone();
+            last.pi = None;
+            s.rows.push(last);
+        }
+        "row-dropped" => {
+            s.rows.pop()?;
+        }
+        "label" => l = from_hex_bytes(v["label_hex"].as_str()?),
+        _ => return None,
+    }
+    Some((s, l))
+}
+
+/// All near-miss descriptors for a spec: exactly one thing differs.
+pub fn near_misses(spec: &Spec, tier: Tier) -> Vec<Value> {
+    let mut out = vec![json!({"kind": "none"})];
+    let nw = spec.all_wit.len();
+    for (r, row) in spec.rows.iter().enumerate() {
+        for k in 0..11 {
+            out.push(json!({"kind": "selector", "row": r, "k": k, "name": SELECTOR_NAMES[k]}));
+            if tier == Tier::Thorough && row.q[k] != zero() && row.q[k] + row.q[k] != zero() {
+                out.push(json!({"kind": "selector-negated", "row": r, "k": k, "name": SELECTOR_NAMES[k]}));
+            }
+        }
+        for k in 0..4 {
+            // quick: the next witness index; thorough: every other witness index
+            let targets: Vec<usize> = match tier {
+                Tier::Quick => vec![(row.w[k] + 1) % nw],
+                Tier::Thorough => (0..nw).filter(|j| *j != row.w[k]).collect(),
+            };
+            for to in targets {
+                out.push(json!({"kind": "wire", "row": r, "k": k, "to": to, "name": WIRE_NAMES[k]}));
+            }
+            // another witness index holding the same VALUE: only the permutation changes
+            if let Some(to) = (0..nw).find(|j| *j != row.w[k] && spec.all_wit[*j] == spec.all_wit[row.w[k]]) {
+                out.push(json!({"kind": "wire-samevalue", "row": r, "k": k, "to": to, "name": WIRE_NAMES[k]}));
+            }
+        }
+        if row.pi.is_none() {
+            out.push(json!({"kind": "pi-added", "row": r}));
+        } else {
+            out.push(json!({"kind": "pi-removed", "row": r}));
+            for to in [r.wrapping_sub(1), r + 1] {
+                if to < spec.rows.len() && spec.rows[to].pi.is_none() {
+                    out.push(json!({"kind": "pi-moved", "row": r, "to": to}));
+                }
+            }
+        }
+    }
+    out.push(json!({"kind": "row-added-zero"}));
+    out.push(json!({"kind": "row-added-dup"}));
+    out.push(json!({"kind": "row-dropped"}));
+    out
+}
+
+pub fn label_edits() -> Vec<Value> {
+    let mut out = Vec::new();
+    for bit in 0..64 {
+        let mut l = LABEL.to_vec();
+        l[bit / 8] ^= 1 << (bit % 8);
+        out.push(json!({"kind": "label", "edit": "bit-flip", "label_hex": to_hex(&l)}));
+    }
+    out.push(json!({"kind": "label", "edit": "empty", "label_hex": ""}));
+    out.push(json!({"kind": "label", "edit": "7-bytes", "label_hex": to_hex(&LABEL[..7])}));
+    out.push(json!({"kind": "label", "edit": "7-bytes-tail", "label_hex": to_hex(&LABEL[1..])}));
+    let mut l = LABEL.to_vec();
+    l.push(b'x');
+    out.push(json!({"kind": "label", "edit": "9-bytes", "label_hex": to_hex(&l)}));
+    let mut l = LABEL.to_vec();
+    l.push(0);
+    out.push(json!({"kind": "label", "edit": "trailing-nul", "label_hex": to_hex(&l)}));
+    out
+}
+
+// ---------------------------------------------------------------------------
+// Circuits
+// ---------------------------------------------------------------------------
+
+pub fn circuit_progs() -> Vec<(&'static str, Prog)> {
+    let mut v: Vec<(&'static str, Prog)> = Vec::new();
+    // two adjacent public-input rows, the second zero-valued
+    v.push((
+        "pi2-adjacent-zero",
+        Prog::new(|c| {
+            let a = c.append_public(fe(9));
+            let z = c.append_public(fe(0));
+            let s = c.gate_add(Constraint::new().left(1).right(1).a(a).b(z));
+            c.assert_equal(s, a);
+            Ok(())
+        }),
+    ));
+    // four public inputs: value, (0, 1) of a public point on adjacent rows, a product; a range gadget in between
+    v.push((
+        "pi4-range-point",
+        Prog::new(|c| {
+            let a = c.append_public(fe(37));
+            c.component_range_bits::<6>(a);
+            let p = c.append_public_point(JubJubExtended::identity())?;
+            let m = c.gate_mul(Constraint::new().mult(1).a(a).b(*p.y()));
+            c.assert_equal_constant(m, fe(0), Some(fe(37)));
+            Ok(())
+        }),
+    ));
+    // one public input
+    v.push((
+        "pi1",
+        Prog::new(|c| {
+            let a = c.append_witness(fe(3));
+            let b = c.append_witness(fe(5));
+            let m = c.gate_mul(Constraint::new().mult(1).a(a).b(b));
+            c.assert_equal_constant(m, fe(0), Some(fe(15)));
+            Ok(())
+        }),
+    ));
+    // three public inputs, two of them equal, with a gap
+    v.push((
+        "pi3-equal",
+        Prog::new(|c| {
+            let a = c.append_public(fe(7));
+            let b = c.append_witness(fe(4));
+            let m = c.gate_mul(Constraint::new().mult(1).a(a).b(b));
+            let d = c.append_public(fe(7));
+            c.assert_equal(a, d);
+            let e = c.append_public(fe(2));
+            let s = c.gate_add(Constraint::new().left(1).right(1).a(m).b(e));
+            c.assert_equal_constant(s, fe(30), None);
+            Ok(())
+        }),
+    ));
+    // a single zero-valued public input
+    v.push((
+        "pi1-zero",
+        Prog::new(|c| {
+            let a = c.append_witness(fe(6));
+            let d = c.gate_add(Constraint::new().left(1).right(neg1()).a(a).b(a));
+            c.assert_equal_constant(d, fe(0), Some(fe(0)));
+            Ok(())
+        }),
+    ));
+    // four distinct public inputs on adjacent rows around one raw XOR row
+    // (the public logic gadget is ~170 rows, which would make ~3800 near-miss compiles)
+    v.push((
+        "pi4-logic",
+        Prog::new(|c| {
+            use crate::m1::{QARITH, QC, QF, QL, QLOGIC, QR};
+            let (qa, qb) = (3u64, 1u64);
+            let w = c.append_witness(fe(qa * qb));
+            let an = c.append_witness(fe(qa));
+            let bn = c.append_witness(fe(qb));
+            let dn = c.append_witness(fe(qa ^ qb));
+            let z = Composer::ZERO;
+            let mut q = [zero(); 11];
+            q[QLOGIC] = neg1();
+            q[QC] = neg1();
+            c.verif_raw_gate(q, None, [z, z, w, z]);
+            let mut q2 = [zero(); 11];
+            q2[QARITH] = one();
+            q2[QL] = one();
+            q2[QR] = one();
+            q2[QF] = one();
+            c.verif_raw_gate(q2, Some(-fe(qa + qb + (qa ^ qb))), [an, bn, z, dn]);
+            c.assert_equal_constant(an, fe(0), Some(fe(qa)));
+            c.assert_equal_constant(bn, fe(0), Some(fe(qb)));
+            c.assert_equal_constant(dn, fe(0), Some(fe(qa ^ qb)));
+            Ok(())
+        }),
+    ));
+    v
+}
+
+pub fn circuit_names(tier: Tier) -> Vec<&'static str> {
+    match tier {
+        Tier::Quick => vec!["pi2-adjacent-zero", "pi4-range-point"],
+        Tier::Thorough => vec!["pi2-adjacent-zero", "pi4-range-point", "pi1", "pi3-equal", "pi1-zero", "pi4-logic"],
+    }
+}
+
+// ---------------------------------------------------------------------------
+// Cases
+// ---------------------------------------------------------------------------
+
+pub struct Variant {
+    pub desc: Value,
+    pub verifier: Arc<Verifier>,
+    pub vd: VerifierData,
+    pub vhash: u64,
+    /// serialized description equals the original verifier's
+    pub same: bool,
+    /// the variant's own public-input vector
+    pub pis: Vec<Fe>,
+}
+
+#[derive(Clone, Copy, Debug, PartialEq, Eq)]
+pub enum Expect {
+    Accept,
+    Reject,
+    /// whatever the reference verifier decides (version pairs)
+    M2,
+}
+
+pub struct Case {
+    pub circ: usize,
+    /// index into the circuit's variant list (0 = the original verifier)
+    pub variant: usize,
+    pub ver: Version,
+    /// version the presented proof was made for
+    pub proof_ver: Version,
+    pub pis: Vec<Fe>,
+    pub expect: Expect,
+    pub class: String,
+    pub what: String,
+}
+
+pub struct Subject {
+    pub circ: Circ,
+    pub spec: Spec,
+    pub variants: Vec<Variant>,
+    /// honest proofs by version
+    pub proofs: BTreeMap<&'static str, Vec<u8>>,
+    pub pis: Vec<Fe>,
+    /// why there is no V1 proof, if there is none
+    pub v1_note: Option<String>,
+}
+
+fn permutations(n: usize) -> Vec<Vec<usize>> {
+    fn rec(cur: &mut Vec<usize>, used: &mut Vec<bool>, n: usize, out: &mut Vec<Vec<usize>>) {
+        if cur.len() == n {
+            out.push(cur.clone());
+            return;
+        }
+        for i in 0..n {
+            if !used[i] {
+                used[i] = true;
+                cur.push(i);
+                rec(cur, used, n, out);
+                cur.pop();
+                used[i] = false;
+            }
+        }
+    }
+    let mut out = Vec::new();
+    rec(&mut Vec::new(), &mut vec![false; n], n, &mut out);
+    out
+}
+
+pub fn build_variant(spec: &Spec, desc: &Value, orig_bytes: &[u8]) -> Result<Option<Variant>, String> {
+    let Some((s, label)) = apply_variant(spec, LABEL, desc) else { return Ok(None) };
+    let prog = s.prog();
+    let snap = prog.run().map_err(|e| format!("variant {} does not build: {:?}", desc, e))?;
+    let pp = crate::setup::pp(c03::trim_size(snap.gates.len()).max(64));
+    let (_, verifier) = Compiler::compile_with_circuit(&pp, &label, &prog).map_err(|e| format!("variant {} does not compile: {:?}", desc, e))?;
+    let vb = verifier.to_bytes();
+    let vd = m2::parse_verifier(&vb).map_err(|e| format!("variant {}: M2 cannot parse the verifier: {}", desc, e))?;
+    Ok(Some(Variant { desc: desc.clone(), verifier: Arc::new(verifier), vd, vhash: fnv(&vb), same: vb == orig_bytes, pis: s.pis() }))
+}
+
+pub fn build_subject(name: &str, prog: &Prog, tier: Tier) -> Result<Subject, String> {
+    let circ = c03::compile(name, prog, LABEL)?;
+    let spec = Spec::from_snapshot(&circ.snap);
+    let mut proofs = BTreeMap::new();
+    let (b3, p3) = c03::prove_real(&circ, Version::V3, 0)?;
+    let (b2, p2) = c03::prove_real(&circ, Version::V2, 0)?;
+    if p2 != p3 || p3 != spec.pis() {
+        return Err(format!("{}: public-input vectors of the prover and of the row description differ", name));
+    }
+    // a failed derivation (M2's challenges are not the prover's) leaves the V1 proof out
+    let v1_note = match c03::derive_v1(&circ, &b2, &p2) {
+        Ok(b1) => {
+            proofs.insert("V1", b1);
+            None
+        }
+        Err(e) => Some(format!("{}: legacy (V1) proof derivation failed: {}", name, e)),
+    };
+    proofs.insert("V3", b3);
+    proofs.insert("V2", b2);
+    let mut descs = near_misses(&spec, tier);
+    descs.extend(label_edits());
+    let built = crate::par::par_map(&descs, |d| build_variant(&spec, d, &circ.vbytes));
+    let mut variants = Vec::new();
+    for (d, b) in descs.iter().zip(built) {
+        match b {
+            Err(p) => return Err(format!("{}: harness panic building variant {}: {}", name, d, p)),
+            Ok(Err(e)) => return Err(format!("{}: {}", name, e)),
+            Ok(Ok(None)) => {}
+            Ok(Ok(Some(v))) => variants.push(v),
+        }
+    }
+    if variants.is_empty() || variants[0].desc["kind"] != "none" {
+        return Err(format!("{}: the rebuilt original is missing", name));
+    }
+    Ok(Subject { circ, spec, variants, proofs, pis: p3, v1_note })
+}
+
+pub fn enumerate(subjects: &[Subject], tier: Tier) -> Vec<Case> {
+    let mut out: Vec<Case> = Vec::new();
+    let alpha = alphabet_fs(seed());
+    for (ci, s) in subjects.iter().enumerate() {
+        let orig = &s.pis;
+        let mk = |variant: usize, ver: Version, proof_ver: Version, pis: Vec<Fe>, expect: Expect, class: &str, what: String| Case { circ: ci, variant, ver, proof_ver, pis, expect, class: class.to_string(), what };
+        for ver in VERSIONS {
+            // baseline
+            out.push(mk(0, ver, ver, orig.clone(), Expect::Accept, "baseline", "unchanged".into()));
+            // public-input vector edits, against the original verifier
+            let mut edits: Vec<(String, Vec<Fe>)> = Vec::new();
+            for i in 0..orig.len() {
+                for (ai, a) in alpha.iter().enumerate() {
+                    let mut p = orig.clone();
+                    p[i] = *a;
+                    edits.push((format!("value/alt{}", ai), p));
+                }
+            }
+            for perm in permutations(orig.len()) {
+                edits.push(("permutation".into(), perm.iter().map(|i| orig[*i]).collect()));
+            }
+            if !orig.is_empty() {
+                edits.push(("drop-first".into(), orig[1..].to_vec()));
+                edits.push(("drop-last".into(), orig[..orig.len() - 1].to_vec()));
+                let mut p = orig.clone();
+                p.push(*orig.last().unwrap());
+                edits.push(("duplicate-last".into(), p));
+                edits.push(("empty".into(), vec![]));
+            }
+            let mut p = orig.clone();
+            p.push(zero());
+            edits.push(("append-zero".into(), p));
+            let mut p = orig.clone();
+            p.insert(0, zero());
+            edits.push(("prepend-zero".into(), p));
+            for (nm, p) in edits {
+                let e = if p == *orig { Expect::Accept } else { Expect::Reject };
+                out.push(mk(0, ver, ver, p, e, "pi-edit", nm));
+            }
+            // near-miss verifiers and label edits: the original proof with the original vector,
+            // and with the variant's own vector when that differs
+            if ver != Version::V1 || tier == Tier::Thorough {
+                for (vi, v) in s.variants.iter().enumerate() {
+                    let kind = v.desc["kind"].as_str().unwrap_or("?");
+                    let (class, what) = if kind == "label" {
+                        ("label", v.desc["edit"].as_str().unwrap_or("?").to_string())
+                    } else {
+                        ("nearmiss", match v.desc["name"].as_str() {
+                            Some(n) => format!("{}-{}", kind, n),
+                            // a moved / removed public input: zero-valued or not
+                            None if kind == "pi-moved" || kind == "pi-removed" => {
+                                let row = v.desc["row"].as_u64().unwrap_or(0) as usize;
+                                let z = s.spec.rows.get(row).and_then(|r| r.pi).map(|p| p == zero()).unwrap_or(false);
+                                format!("{}-{}", kind, if z { "zero" } else { "nonzero" })
+                            }
+                            None => kind.to_string(),
+                        })
+                    };
+                    let e = if v.same { Expect::Accept } else { Expect::Reject };
+                    out.push(mk(vi, ver, ver, orig.clone(), e, class, what.clone()));
+                    if v.pis != *orig {
+                        out.push(mk(vi, ver, ver, v.pis.clone(), Expect::Reject, class, format!("{}+adapted-pi", what)));
+                    }
+                }
+            }
+            // version pairs: decided by the reference verifier
+            for proof_ver in VERSIONS {
+                out.push(mk(0, ver, proof_ver, orig.clone(), Expect::M2, "version", format!("proof={}/verify={}", proof_ver.name(), ver.name())));
+            }
+        }
+    }
+    out.retain(|c| subjects[c.circ].proofs.contains_key(c.proof_ver.name()));
+    out
+}
+
+pub struct Outcome {
+    pub real: Side,
+    pub expected_accept: bool,
+    pub m2: Option<Side>,
+    pub hash: u64,
+}
+
+pub fn evaluate(c: &Case, subjects: &[Subject]) -> Outcome {
+    let s = &subjects[c.circ];
+    let v = &s.variants[c.variant];
+    let bytes = &s.proofs[c.proof_ver.name()];
+    // variant 0 is the rebuilt original; use the verifier the proofs were made with for it
+    let real = if c.variant == 0 { real_side(&s.circ.verifier, bytes, &c.pis, c.ver) } else { real_side(&v.verifier, bytes, &c.pis, c.ver) };
+    let (m2s, expected_accept) = match c.expect {
+        Expect::Accept => (None, true),
+        Expect::Reject => (None, false),
+        Expect::M2 => {
+            let m = m2_side(&v.vd, bytes, &c.pis, c.ver);
+            let a = m.accepts();
+            (Some(m), a)
+        }
+    };
+    let mut h = fnv(bytes);
+    h = (h ^ v.vhash).wrapping_mul(0x100000001b3);
+    h = (h ^ c.ver as u64).wrapping_mul(0x100000001b3);
+    for p in &c.pis {
+        h = fnv_fe(h, p);
+    }
+    Outcome { real, expected_accept, m2: m2s, hash: h }
+}
+
+fn case_json(c: &Case, subjects: &[Subject]) -> Value {
+    let s = &subjects[c.circ];
+    json!({
+        "circuit": s.circ.name,
+        "variant": s.variants[c.variant].desc,
+        "version": c.ver.name(),
+        "proof_version": c.proof_ver.name(),
+        "proof_hex": to_hex(&s.proofs[c.proof_ver.name()]),
+        "pis": c.pis.iter().map(hex).collect::<Vec<_>>(),
+        "original_pis": s.pis.iter().map(hex).collect::<Vec<_>>(),
+        "class": c.class,
+        "what": c.what,
+        "expected": format!("{:?}", c.expect),
+    })
+}
+
+fn parse_ver(s: &str) -> Version {
+    match s {
+        "V1" => Version::V1,
+        "V2" => Version::V2,
+        _ => Version::V3,
+    }
+}
+
+pub fn main(tier: Tier, replay: Option<Value>) -> i32 {
+    let mut run = Run::new("C04", tier, "model_checking");
+    run.rule = "cases = (verifier, version, proof, public-input vector): for each circuit an honest proof per version (V2, V3 by the real prover, V1 derived) is presented (1) to its own verifier with every public-input position x every F_s value, every permutation, truncations / extensions; (2) to every near-miss verifier compiled from the circuit's row description with exactly one change (each user row x 11 selectors +1, each wire re-pointed to another witness / to another witness of equal value, a public-input row added / removed / moved, a row appended / dropped) with the original and the variant's own vector; (3) to verifiers compiled under every single-bit flip and length edit of the 8-byte label; (4) under every ordered (proof version, verify version) pair, decided by M2. Expected accept iff Verifier::to_bytes() is byte-identical, the vector is identical, and (version pairs) M2 accepts; non-trivial = distinct (verifier bytes, version, proof, vector) executed on the real verifier".into();
+    if let Err(e) = m2::selfcheck() {
+        run.machinery(format!("M2 self-check: {}", e));
+        return run.finish();
+    }
+    let progs = circuit_progs();
+    let names = if replay.is_some() { circuit_names(Tier::Thorough) } else { circuit_names(tier) };
+
+    if let Some(r) = replay {
+        run.set_replay_mode();
+        let case = &r["case"];
+        let cname = case["circuit"].as_str().unwrap_or("");
+        let Some((_, prog)) = progs.iter().find(|(n, _)| *n == cname) else {
+            run.machinery(format!("replay: unknown circuit {}", cname));
+            return run.finish();
+        };
+        let circ = match c03::compile(cname, prog, LABEL) {
+            Ok(c) => c,
+            Err(e) => {
+                run.machinery(e);
+                return run.finish();
+            }
+        };
+        let spec = Spec::from_snapshot(&circ.snap);
+        let v = match build_variant(&spec, &case["variant"], &circ.vbytes) {
+            Ok(Some(v)) => v,
+            other => {
+                run.machinery(format!("replay: variant cannot be rebuilt: {:?}", other.err()));
+                return run.finish();
+            }
+        };
+        let ver = parse_ver(case["version"].as_str().unwrap_or(""));
+        let bytes = from_hex_bytes(case["proof_hex"].as_str().unwrap_or(""));
+        let pis: Vec<Fe> = case["pis"].as_array().map(|a| a.iter().map(|x| from_hex(x.as_str().unwrap_or("0"))).collect()).unwrap_or_default();
+        let orig: Vec<Fe> = case["original_pis"].as_array().map(|a| a.iter().map(|x| from_hex(x.as_str().unwrap_or("0"))).collect()).unwrap_or_default();
+        let r1 = real_side(&v.verifier, &bytes, &pis, ver);
+        let r2 = real_side(&v.verifier, &bytes, &pis, ver);
+        if r1 != r2 {
+            run.machinery("replay diverged between two executions".into());
+        }
+        let m = m2_side(&v.vd, &bytes, &pis, ver);
+        let expected = match case["expected"].as_str().unwrap_or("") {
+            "M2" => m.accepts(),
+            _ => v.same && pis == orig && case["proof_version"] == case["version"],
+        };
+        println!("replay {} {}: real={:?} m2={:?} expected_accept={} same_description={}", cname, ver.name(), r1, m, expected, v.same);
+        if r1.accepts() != expected || matches!(r1, Side::Panic(_)) {
+            run.violation("replay", "the real verifier still deviates from the binding predicate", case.clone());
+        }
+        return run.finish();
+    }
+
+    // V1 proving must be refused
+    let mut subjects = Vec::new();
+    for n in &names {
+        let (_, p) = progs.iter().find(|(k, _)| k == n).expect("circuit exists");
+        match build_subject(n, p, tier) {
+            Ok(s) => subjects.push(s),
+            Err(e) => {
+                run.machinery(e);
+                return run.finish();
+            }
+        }
+    }
+    for s in &subjects {
+        let mut rng = crate::rng::ScriptedRng::base(seed(), 400);
+        let prog = s.circ.prog.clone();
+        let r = catch_unwind(AssertUnwindSafe(|| s.circ.prover.prove_with_version(&mut rng, &prog, pv(Version::V1))));
+        run.transitions += 1;
+        run.traces_validated += 1;
+        match r {
+            Ok(Err(Error::UnsupportedProvingVersion)) => run.outcome("prove-v1:unsupported"),
+            Ok(Err(e)) => {
+                run.outcome("prove-v1:other-error");
+                run.violation("prove-v1/other-error", &format!("prove_with_version(V1) returned {:?} instead of UnsupportedProvingVersion", e), json!({"circuit": s.circ.name}));
+            }
+            Ok(Ok(_)) => {
+                run.outcome("prove-v1:proof");
+                run.violation("prove-v1/produced-a-proof", "prove_with_version(V1) produced a proof", json!({"circuit": s.circ.name}));
+            }
+            Err(e) => {
+                run.outcome("prove-v1:panic");
+                run.violation("prove-v1/panic", &format!("prove_with_version(V1) panicked: {}", crate::par::panic_msg(e)), json!({"circuit": s.circ.name}));
+            }
+        }
+    }
+
+    let cases = enumerate(&subjects, tier);
+    run.bound(
+        "circuits",
+        json!(subjects.iter().map(|s| json!({"name": s.circ.name, "constraints": s.circ.vd.constraints, "public_input_rows": s.circ.vd.pi_rows, "public_inputs": s.pis.iter().map(hex).collect::<Vec<_>>(), "variants": s.variants.len()})).collect::<Vec<_>>()),
+    );
+    run.bound("cases", json!(cases.len()));
+    run.bound("alphabet_fs", json!(alphabet_fs(seed()).len()));
+    let outs = crate::par::par_map(&cases, |c| evaluate(c, &subjects));
+
+    let mut distinct_verifiers = std::collections::HashSet::new();
+    let mut accepted = BTreeMap::<(usize, &'static str), u64>::new();
+    let mut differing_kinds = BTreeMap::<String, u64>::new();
+    let mut same_kinds = BTreeMap::<String, u64>::new();
+    let mut identical_edit_accepts = 0u64;
+    for (c, o) in cases.iter().zip(outs) {
+        run.transitions += 1;
+        run.evaluations += 1;
+        let o = match o {
+            Ok(o) => o,
+            Err(p) => {
+                run.machinery(format!("harness panic on {}/{}: {}", c.class, c.what, p));
+                continue;
+            }
+        };
+        run.traces_validated += 1;
+        let s = &subjects[c.circ];
+        let v = &s.variants[c.variant];
+        distinct_verifiers.insert((v.vhash, c.ver));
+        run.nontrivial(o.hash);
+        run.outcome(&format!("{}:real-{}/expected-{}", c.class, o.real.name(), if o.expected_accept { "accept" } else { "reject" }));
+        if c.class == "baseline" && o.real.accepts() {
+            *accepted.entry((c.circ, c.ver.name())).or_insert(0) += 1;
+        }
+        if c.class == "pi-edit" && o.expected_accept && o.real.accepts() {
+            identical_edit_accepts += 1;
+        }
+        if c.class == "nearmiss" || c.class == "label" {
+            let kind = format!("{}/{}", c.class, v.desc["kind"].as_str().unwrap_or("?"));
+            *(if v.same { &mut same_kinds } else { &mut differing_kinds }).entry(kind).or_insert(0) += 1;
+        }
+        if run.transitions % 499 == 1 {
+            run.sample(json!({"circuit": s.circ.name, "class": c.class, "what": c.what, "version": c.ver.name(), "real": o.real.name(), "expected_accept": o.expected_accept}));
+        }
+        // coarse, stable signature: strip per-position detail
+        let what = c.what.split("/alt").next().unwrap_or("").to_string();
+        if let Side::Panic(msg) = &o.real {
+            run.violation(&format!("panic/{}/{}/ver={}", c.class, what, c.ver.name()), &format!("verify_with_version panicked: {}", msg), case_json(c, &subjects));
+            continue;
+        }
+        if o.real.accepts() != o.expected_accept {
+            let exp = match c.expect {
+                Expect::M2 => format!("m2={}", o.m2.as_ref().map(|m| m.name()).unwrap_or("?")),
+                _ => format!("expected={}", if o.expected_accept { "accept" } else { "reject" }),
+            };
+            run.violation(
+                &format!("{}/{}/real={}/{}/ver={}", c.class, what, o.real.name(), exp, c.ver.name()),
+                &format!("circuit {}: {} {}: the real verifier says {} but the binding predicate says {}", s.circ.name, c.class, c.what, o.real.name(), if o.expected_accept { "accept" } else { "reject" }),
+                case_json(c, &subjects),
+            );
+        }
+    }
+    run.states = distinct_verifiers.len() as u64;
+    let notes: Vec<String> = subjects.iter().filter_map(|s| s.v1_note.clone()).collect();
+    if !notes.is_empty() {
+        run.extra.insert("v1_derivation_failures".into(), json!(notes));
+        if run.violations + run.known == 0 {
+            run.machinery(format!("V1 proof derivation failed without any reported violation: {}", notes[0]));
+        }
+    }
+    for (ci, s) in subjects.iter().enumerate() {
+        for ver in VERSIONS {
+            if !s.proofs.contains_key(ver.name()) {
+                continue;
+            }
+            run.gate(&format!("honest proof of {} accepted under {}", s.circ.name, ver.name()), accepted.get(&(ci, ver.name())).copied().unwrap_or(0) > 0);
+        }
+        run.gate(&format!("{}: the verifier rebuilt from the row description is byte-identical", s.circ.name), s.variants[0].same);
+    }
+    for kind in ["nearmiss/selector", "nearmiss/wire", "nearmiss/pi-added", "nearmiss/pi-removed", "nearmiss/pi-moved", "nearmiss/row-added-zero", "nearmiss/row-added-dup", "nearmiss/row-dropped", "label/label"] {
+        run.gate(&format!(">=1 {} variant with a different serialized verifier", kind), differing_kinds.get(kind).copied().unwrap_or(0) > 0);
+    }
+    run.gate(">=1 same-description verifier accepted (rebuilt original)", same_kinds.values().sum::<u64>() > 0);
+    run.gate(">=1 public-input edit that leaves the vector identical (accept expected and observed)", identical_edit_accepts > 0);
+    run.extra.insert("variant_cases_with_different_description".into(), json!(differing_kinds));
+    run.extra.insert("variant_cases_with_same_description".into(), json!(same_kinds));
+    run.assumptions = vec![
+        "'same circuit description' is decided by byte equality of Verifier::to_bytes()".into(),
+        "expected verdict of (proof version, verify version) pairs is M2's verdict (C03 binds M2 to the code)".into(),
+        "V1 proofs are derived by the harness from V2 proofs (the crate refuses to prove under V1)".into(),
+        "alternative public-input values come from the 12-element alphabet F_s, not the whole field".into(),
+    ];
+    run.finish()
 }
